@@ -23,7 +23,7 @@ REAL = ["rpyc.core.protocol.Connection (serve/_dispatch/_seq_request_callback/_a
 STUB = ["peer = re-ordering reference peer (ref/peer.py + props/thr.py)", "threads/locks/condition/clock = simulator", "line pre-emption via sys.settrace"]
 ASSUMPTIONS = ["source-line pre-emption granularity", "liveness is judged in full only for waits that did not start after another thread received "
                "the awaited reply (known finding D7, shared with C14)"]
-PROBES = ["c13:foreign-reply", "thr:taint-poll", "thr:taint-cond.wait", "c13:callback-served", "c13:unsendable-request"]
+PROBES = ["c13:foreign-reply", "thr:taint-poll", "thr:taint-cond.wait", "c13:callback-served", "c13:unsendable-request", "c13:failing-request-served"]
 TRACE_FILES = thr.TRACE_FILES
 TRACE_FUNCS = thr.TRACE_FUNCS
 CHUNK = 40
@@ -55,14 +55,26 @@ def run_one(choices, params):
     def main(sim, k):
         a, b = k.socketpair()
         ledger, _, _ = pair.tap_pair(sim, a, b, log=False)
-        conn = rpyc.VoidService()._connect(Channel(SocketStream(a), False), {"connid": "A", "sync_request_timeout": timeout})
+        def helper_alpha():
+            raise ValueError("alpha")
+
+        def helper_beta():
+            raise KeyError("beta")
+
+        class SvcA(rpyc.Service):
+            def exposed_fail_a(self):
+                return helper_alpha()
+
+            def exposed_fail_b(self):
+                return helper_beta()
+        conn = SvcA()._connect(Channel(SocketStream(a), False), {"connid": "A", "sync_request_timeout": timeout})
         # knob: where the connection's sequence numbers start (a long-lived connection is anywhere in its number space; the
         # numbers near 2**16, 2**31, 2**32 and 2**63 are where a counter of limited width would wrap)
         import itertools
         start = c.pick((0, 0, 2 ** 16 - 3, 2 ** 31 - 2, 2 ** 32 - 3, 2 ** 63 - 2, 2 ** 64 - 1))
         conn._seqcounter = itertools.count(start)
         spy = thr.Spy(sim, conn)
-        rp = thr.ReorderPeer(sim, b, choices.stream("peer"), delays=(0.0, 0.0, 0.0625, 0.125, 0.25))
+        rp = thr.ReorderPeer(sim, b, choices.stream("peer"), delays=(0.0, 0.0, 0.0625, 0.125, 0.25), fail_calls=True)
         sim.spawn(rp.reader, _name="peer.reader")
         sim.spawn(rp.responder, total, _name="peer.responder")
         bg = None
@@ -220,6 +232,23 @@ def run_one(choices, params):
             answered_cb = [e[2] for e in ledger if e[0] == "A>B" and e[1] in ("rep", "exc")]
             if len(answered_cb) != len(set(answered_cb)):
                 raise core.Violation("frame-dispatched-twice", "a callback of the peer was answered twice: %r" % (answered_cb,))
+            # failing requests of the peer: each failure report describes its own request
+            for s_, which in sorted(rp.fail_sent.items()):
+                rep = rp.cb_replies.get(s_)
+                if rep is None:
+                    continue            # still in flight at the end of the run
+                sim.count("c13:failing-request-served")
+                kind_, args_ = rep
+                own, other = ("helper_alpha", "helper_beta") if which == "a" else ("helper_beta", "helper_alpha")
+                if kind_ != RC.MSG_EXCEPTION:
+                    raise core.Violation("crossed-reply", "the failing request fail_%s was answered with kind %r" % (which, kind_))
+                try:
+                    name, tbtext = args_[0][1], args_[3]
+                except Exception:
+                    name, tbtext = None, ""
+                if name != ("ValueError" if which == "a" else "KeyError") or own not in tbtext or other in tbtext:
+                    raise core.Violation("crossed-reply", "the failure report for fail_%s names %r and carries the traceback of %s" % (
+                        which, name, "another request: ..." + tbtext[-160:] if other in tbtext else "nothing recognisable: " + tbtext[-160:]))
             left = [s for s in conn._request_callbacks if spy.owner.get(s) is not None and s in rp.answered and s in spy.done]
             if left:
                 raise core.Violation("callback-left", "responses dispatched but callbacks still registered for seqs %r" % (left,))
